@@ -457,6 +457,12 @@ func (p *Packer) Unpack(r io.Reader, dst string) error {
 			return &IllegalSlugError{Err: err}
 		}
 
+		// Extended (pax) headers carry no file of their own: nothing is
+		// created for them, not even the directories of their name.
+		if info.IsTypeX() {
+			continue
+		}
+
 		// Make the directories to the path.
 		dir := filepath.Dir(info.Path)
 
